@@ -5,6 +5,7 @@
    shape) are in Merkle/Tree.v and Merkle/Ref.v; the verifiers transliterated from
    embedded/ahtree/verification.go and embedded/htree/htree.go are in Merkle/Verify.v. *)
 From V Require Import Merkle.Verify Merkle.Sound Merkle.Levels Merkle.Honest Merkle.Exact Merkle.RefEq Merkle.Main.
+From V Require Import Merkle.RefPath Merkle.HExact Merkle.AHT Merkle.AHTArith Merkle.AHTSpec Merkle.AHTInv Merkle.AHTIncl Merkle.AHTCons Merkle.ConsComplete Merkle.ConsExact Merkle.AHTMain.
 
 (* The reference tree over a non-empty list of payloads has exactly those payloads as leaves, in
    order (so `mth L` commits to L and to nothing else). *)
@@ -88,3 +89,184 @@ Theorem C08_htree_inclusion_sound_partial :
     In d (leaves t) \/ Collision H.
 Proof. exact htree_inclusion_sound_membership. Qed.
 Print Assumptions C08_htree_inclusion_sound_partial.
+
+(* htree.VerifyInclusion (Go ints, final `i == r` test) is POSITION-EXACT when the claimed Width is
+   the genuine number of digests: for every digest list ds (any size, also empty), every proof an
+   adversary can assemble, every claimed Leaf (any Go int, also negative): acceptance against
+   (|ds|, mth ds) implies that d is exactly ds[Leaf] and 0 <= Leaf < Width, or a collision is
+   exhibited. *)
+Theorem C08_htree_inclusion_sound_exact :
+  forall (H : bytes -> bytes), (forall x, length (H x) = 32%nat) ->
+  forall (ds terms : list bytes) (leaf width : Z) (d : bytes),
+    width = Z.of_nat (length ds) -> len32 terms ->
+    htree_verify_inclusion H leaf width terms d (mth H ds) = true ->
+    (nth_error ds (Z.to_nat leaf) = Some d /\ (0 <= leaf < width)%Z) \/ Collision H.
+Proof. exact htree_inclusion_sound_exact. Qed.
+Print Assumptions C08_htree_inclusion_sound_exact.
+
+(* htree completeness: for every ds and every position x the honest proof (= the RFC 6962 audit
+   path, theorem C08_audit_is_honest; the harness checks on every run that htree.InclusionProof
+   returns exactly these terms) is accepted. *)
+Theorem C08_htree_inclusion_complete :
+  forall (H : bytes -> bytes), (forall x, length (H x) = 32%nat) ->
+  forall (ds : list bytes) (x : nat) (d : bytes),
+    nth_error ds x = Some d ->
+    htree_verify_inclusion H (Z.of_nat x) (Z.of_nat (length ds))
+      (honest_inclusion_proof H ds (N.of_nat x + 1)) d (mth H ds) = true.
+Proof. exact htree_inclusion_complete. Qed.
+Print Assumptions C08_htree_inclusion_complete.
+
+(* The RFC 6962 audit path of the reference tree IS the honest level path of the completeness
+   theorems (the path to a leaf position is unique). *)
+Theorem C08_audit_is_honest :
+  forall (H : bytes -> bytes) (X : list bytes) (x : nat),
+    (x < length X)%nat ->
+    audit H (mk_tree X) (N.of_nat x) = honest_inclusion_proof H X (N.of_nat x + 1).
+Proof. exact audit_is_honest_proof. Qed.
+Print Assumptions C08_audit_is_honest.
+
+(* ---- the AHtree digest log (model Merkle/AHT.v: nodesUpto / nodesUntil / levelsAt, node(n,l),
+   the Append w,l,k loop, rootAt, highestNode, inclusionProof, ResetSize rewinding the sizes over
+   files that keep their stale tails). `aht_run H ops` is the state after ANY history of
+   Append d / ResetSize k from the empty tree; `final_payloads ops` its abstract content. ---- *)
+
+(* The arithmetic crux: nodesUpto(n+1) = nodesUpto(n) + 1 + levelsAt(n+1), i.e. group n+1 of the
+   digest log (one leaf digest + one digest per set bit of n) starts where nodesUntil(n+1) says. *)
+Theorem C08_nodes_upto_recurrence :
+  forall n : N, nodes_upto (n + 1) = nodes_upto n + 1 + levels_at (n + 1).
+Proof. exact nodes_upto_succ. Qed.
+Print Assumptions C08_nodes_upto_recurrence.
+
+(* aht_append_inv: after every history the valid part of the digest log (below dLogSize, which
+   equals nodesUpto(size)) is exactly the specification log of the payloads: for n = 1..size the
+   group [mth (payloads (base n h, n]) : h = 0 and h = r+1 for each set bit r of n-1]. *)
+Theorem C08_aht_append_inv :
+  forall (H : bytes -> bytes) (ops : list aop),
+    let t := aht_run H ops in
+    payloads t = final_payloads ops /\
+    size t = lenN (final_payloads ops) /\
+    dsize t = nodes_upto (size t) /\
+    firstn (N.to_nat (dsize t)) (dlog t) = spec_log H (final_payloads ops).
+Proof. exact aht_append_inv. Qed.
+Print Assumptions C08_aht_append_inv.
+
+(* ... read through the code's own addressing: node(n, #set bits of n-1 below h) is the reference
+   tree hash of the payloads (((n-1)>>h)<<h, n] — the subtree the code means it to be. *)
+Theorem C08_aht_node_is_subtree :
+  forall (H : bytes -> bytes) (ops : list aop) (n : N) (h : nat),
+    let t := aht_run H ops in
+    1 <= n <= size t ->
+    node t n (highest_level n h) = Ok (mth H (slice (final_payloads ops) (base n (N.of_nat h)) n)).
+Proof. exact aht_node_is_subtree. Qed.
+Print Assumptions C08_aht_node_is_subtree.
+
+(* aht_rootAt_is_mth: RootAt(n) is the reference Merkle tree hash of the first n payloads, for
+   every history and every 1 <= n <= size. *)
+Theorem C08_aht_rootAt_is_mth :
+  forall (H : bytes -> bytes) (ops : list aop) (n : N),
+    let t := aht_run H ops in
+    1 <= n <= size t ->
+    root_at t n = Ok (mth H (firstn (N.to_nat n) (final_payloads ops))).
+Proof. exact aht_rootAt_is_mth. Qed.
+Print Assumptions C08_aht_rootAt_is_mth.
+
+(* aht_inclusion_proof_is_honest: InclusionProof(i, j) returns exactly the honest proof of
+   C08_ahtree_inclusion_complete (no error), for every history and 1 <= i <= j <= size ... *)
+Theorem C08_aht_inclusion_proof_is_honest :
+  forall (H : bytes -> bytes) (ops : list aop) (i j : N),
+    let t := aht_run H ops in
+    1 <= i -> i <= j -> j <= size t ->
+    inclusion_proof t i j = Ok (honest_inclusion_proof H (firstn (N.to_nat j) (final_payloads ops)) i).
+Proof. exact aht_inclusion_proof_is_honest. Qed.
+Print Assumptions C08_aht_inclusion_proof_is_honest.
+
+(* ... hence it is accepted by ahtree.VerifyInclusion against RootAt(j). *)
+Theorem C08_aht_inclusion_proof_verifies :
+  forall (H : bytes -> bytes), (forall x, length (H x) = 32%nat) ->
+  forall (ops : list aop) (i j : N) (d : bytes),
+    let t := aht_run H ops in
+    1 <= i -> i <= j -> j <= size t ->
+    nth_error (final_payloads ops) (N.to_nat (i - 1)) = Some d ->
+    exists p r, inclusion_proof t i j = Ok p /\ root_at t j = Ok r /\
+                verify_inclusion H p i j (leafh H d) r = true.
+Proof. exact aht_inclusion_proof_verifies. Qed.
+Print Assumptions C08_aht_inclusion_proof_verifies.
+
+(* Every reachable state is observationally (size, every RootAt — also its errors —, every
+   InclusionProof and ConsistencyProof — also i = 0, errors and the j = 0 panic) the tree obtained
+   by appending its payloads to an empty tree: the stale tails ResetSize leaves behind are never
+   read. *)
+Theorem C08_aht_history_irrelevant :
+  forall (H : bytes -> bytes) (ops : list aop),
+    let t := aht_run H ops in
+    let t0 := aht_run H (map OAppend (final_payloads ops)) in
+    size t = size t0 /\
+    (forall n, root_at t n = root_at t0 n) /\
+    (forall i j, inclusion_proof t i j = inclusion_proof t0 i j) /\
+    (forall i j, consistency_proof t i j = consistency_proof t0 i j).
+Proof. exact aht_history_irrelevant. Qed.
+Print Assumptions C08_aht_history_irrelevant.
+
+(* aht_reset_append: ResetSize k followed by appends == appends to the k-prefix. *)
+Theorem C08_aht_reset_append :
+  forall (H : bytes -> bytes) (ops : list aop) (k : N) (ds : list bytes),
+    k <= lenN (final_payloads ops) ->
+    let t := aht_run H (ops ++ OReset k :: map OAppend ds) in
+    let t0 := aht_run H (map OAppend (firstn (N.to_nat k) (final_payloads ops) ++ ds)) in
+    payloads t = firstn (N.to_nat k) (final_payloads ops) ++ ds /\
+    size t = size t0 /\
+    (forall n, root_at t n = root_at t0 n) /\
+    (forall i j, inclusion_proof t i j = inclusion_proof t0 i j) /\
+    (forall i j, consistency_proof t i j = consistency_proof t0 i j).
+Proof. exact aht_reset_append. Qed.
+Print Assumptions C08_aht_reset_append.
+
+(* ---- consistency completeness ---- *)
+
+(* AHtree.ConsistencyProof(i, j) never fails for i <= j, 1 <= j <= size (no condition on i) and is
+   the function `consistency_ref_proof` (= cons_ref, Merkle/AHTCons.v: the code's recursion reading
+   the meant digests) of the payloads, for every history. *)
+Theorem C08_aht_consistency_proof_is_ref :
+  forall (H : bytes -> bytes) (ops : list aop) (i j : N),
+    let t := aht_run H ops in
+    i <= j -> 1 <= j -> j <= size t ->
+    consistency_proof t i j = Ok (consistency_ref_proof H (final_payloads ops) i j).
+Proof. exact aht_consistency_proof_is_ref. Qed.
+Print Assumptions C08_aht_consistency_proof_is_ref.
+
+(* Completeness of ahtree.VerifyConsistency: for every payload list L and all 1 <= i <= j <= |L|
+   the generated proof is accepted for the genuine pairs (i, mth (first i)), (j, mth (first j)). *)
+Theorem C08_consistency_complete :
+  forall (H : bytes -> bytes) (L : list bytes) (i j : N),
+    1 <= i -> i <= j -> j <= lenN L ->
+    verify_consistency H (consistency_ref_proof H L i j) i j
+      (mth H (firstn (N.to_nat i) L)) (mth H (firstn (N.to_nat j) L)) = Ok true.
+Proof. exact consistency_complete. Qed.
+Print Assumptions C08_consistency_complete.
+
+(* ... on the tree: ConsistencyProof(i, j) verifies against RootAt(i) and RootAt(j), for every
+   history. *)
+Theorem C08_aht_consistency_proof_verifies :
+  forall (H : bytes -> bytes) (ops : list aop) (i j : N),
+    let t := aht_run H ops in
+    1 <= i -> i <= j -> j <= size t ->
+    exists p ri rj, consistency_proof t i j = Ok p /\ root_at t i = Ok ri /\ root_at t j = Ok rj /\
+                    verify_consistency H p i j ri rj = Ok true.
+Proof. exact aht_consistency_proof_verifies. Qed.
+Print Assumptions C08_aht_consistency_proof_verifies.
+
+(* A position-exact soundness statement for ahtree.VerifyConsistency that IS true of the code: if
+   the proof has the length of the proof the tree generates for (i, j) — a pure function of i and
+   j — then an accepted old root is the root of EXACTLY the first i payloads and 1 <= i <= j (or a
+   collision is exhibited), for every payload list and every adversarial proof of that length.
+   Without the length premise exactness is refuted (consistency_exact_refuted in
+   Merkle/Refuted.v: every known inexact acceptance uses a proof of another length). *)
+Theorem C08_consistency_sound_exact_honest_length :
+  forall (H : bytes -> bytes), (forall x, length (H x) = 32%nat) ->
+  forall (L cproof : list bytes) (i j : N) (iroot : bytes),
+    L <> [] -> j = lenN L -> len32 cproof ->
+    length cproof = length (consistency_ref_proof H L i j) ->
+    verify_consistency H cproof i j iroot (mth H L) = Ok true ->
+    (iroot = mth H (firstn (N.to_nat i) L) /\ 1 <= i <= j) \/ Collision H.
+Proof. exact consistency_sound_exact_len. Qed.
+Print Assumptions C08_consistency_sound_exact_honest_length.
